@@ -16,6 +16,7 @@ pub mod c08;
 pub mod c09;
 pub mod c11;
 pub mod c12;
+pub mod c13;
 pub mod scripted;
 
 pub struct Spec {
@@ -69,6 +70,7 @@ pub fn spec(id: &str) -> Option<Spec> {
     "C09" => Some(c09::spec()),
     "C11" => Some(c11::spec()),
     "C12" => Some(c12::spec()),
+    "C13" => Some(c13::spec()),
     "C20" => Some(c20::spec()),
     "X01" => Some(e2smoke::spec()),
     _ => None,
@@ -88,6 +90,7 @@ pub fn run(id: &str, tier: &str, ctx: &mut Ctx) -> Check {
     "C09" => c09::run(tier, ctx),
     "C11" => c11::run(tier, ctx),
     "C12" => c12::run(tier, ctx),
+    "C13" => c13::run(tier, ctx),
     "C20" => c20::run(tier, ctx),
     "X01" => e2smoke::run(tier, ctx),
     _ => panic!("unknown property {id}"),
